@@ -3,8 +3,8 @@ package props
 import (
 	"sort"
 
-	gethabi "github.com/ethereum/go-ethereum/accounts/abi"
 	"encoding/hex"
+	gethabi "github.com/ethereum/go-ethereum/accounts/abi"
 	"math/big"
 
 	"github.com/ethereum/go-ethereum/common"
